@@ -138,6 +138,8 @@ def run(ctx):
     rep.rule("C06.R8", "relative polarity of the two spheres' terms in the normal-gap chain and in the slip chain (K9)", 14)
     rep.rule("C06.R9", "all point-protocol calls of a contact on one body name the same material point (xi, B_r_CP)", 6)
     protocol.point_argument_agreement(ctx, "C06.R9", [(ci.qual, ci.rel, ci.node) for ci in contact_classes(ctx)])
+    rep.rule("C06.R15", "every accessor lambda of a contact hands a body ITS block of the contact's q / u / u_dot (all calls on one subsystem pass the same slice of the same positional parameter)", 6)
+    protocol.state_slice_agreement(ctx, "C06.R15", [(ci.qual, ci.rel, ci.node) for ci in contact_classes(ctx)])
     rep.rule("C06.R14", "Sphere2Plane: normal and tangents are all COLUMNS of the plane's A_IB (the plane axes in inertial components): with n = A_IB[:, 2] the tangents are A_IB.T[:2] / A_IB[:, :2].T, never rows A_IB[:2]", 1)
     plane_axes_are_columns(ctx)
     rep.rule("C06.R13", "contact routines do not modify in place what the memoised contact kinematics (n, n_q1_q2, t1t2, t1t2_q1_q2) or the bodies' memoised kinematics hand out (K18): a derivative evaluated after another one at the same state stays exact", 5)
@@ -347,4 +349,17 @@ MUTANTS += [
 NEUTRAL += [
     dict(id="c06-n-r14", canary=True, what="Sphere2Plane.t1t2 written as A_IB[:, :2].T", file=S2P,
          old="        self.t1t2 = lambda t: self.frame.A_IB(t).T[:2]\n", new="        self.t1t2 = lambda t: self.frame.A_IB(t)[:, :2].T\n"),
+]
+
+MUTANTS += [
+    dict(id="c06-r15-seed", canary=True, what="[seeded by sub-agent] Sphere2Sphere.Psi2 takes sphere 2's angular acceleration from sphere 1's block of u_dot (a[:nu1])", file=S2S,
+         old="            ) @ self.subsystem2.B_Psi(t, q[nq1:], u[nu1:], a[nu1:], xi=self.xi2)\n            self.Psi2_q2",
+         new="            ) @ self.subsystem2.B_Psi(t, q[nq1:], u[nu1:], a[:nu1], xi=self.xi2)\n            self.Psi2_q2", expect="C06.R15"),
+    dict(id="c06-r15-q", what="Sphere2Sphere.v_C2_q2 evaluated with sphere 1's coordinates", file=S2S,
+         old="        self.v_C2_q2 = lambda t, q, u: self.subsystem2.v_P_q(\n            t, q[nq1:], u[nu1:], self.xi2", new="        self.v_C2_q2 = lambda t, q, u: self.subsystem2.v_P_q(\n            t, q[:nq1], u[nu1:], self.xi2", expect="C06.R15"),
+]
+NEUTRAL += [
+    dict(id="c06-n-r15", canary=True, what="Sphere2Sphere.Psi2 names its last parameter u_dot instead of a", file=S2S,
+         old="            self.Psi2 = lambda t, q, u, a: self.subsystem2.A_IB(\n                t, q[nq1:], xi=self.xi2\n            ) @ self.subsystem2.B_Psi(t, q[nq1:], u[nu1:], a[nu1:], xi=self.xi2)",
+         new="            self.Psi2 = lambda t, q, u, u_dot: self.subsystem2.A_IB(\n                t, q[nq1:], xi=self.xi2\n            ) @ self.subsystem2.B_Psi(t, q[nq1:], u[nu1:], u_dot[nu1:], xi=self.xi2)"),
 ]
